@@ -1374,8 +1374,12 @@ class ServiceClass:
             if "Status" in status:
                 # For the elements in the status dataset, try and set the
                 #   corresponding response primitive attribute
+                #   The message the response belongs to is fixed by the
+                #   request and isn't the callback's to change
                 for elem in status:
-                    if hasattr(rsp, elem.keyword):
+                    if elem.keyword != "MessageIDBeingRespondedTo" and hasattr(
+                        rsp, elem.keyword
+                    ):
                         setattr(rsp, elem.keyword, elem.value)
                     else:
                         LOGGER.warning(
@@ -1495,8 +1499,12 @@ class VerificationServiceClass(ServiceClass):
                         "bound to 'evt.EVT_C_ECHO' must contain"
                         "a (0000,0900) Status element"
                     )
+                #   The message the response belongs to is fixed by the
+                #   request and isn't the callback's to change
                 for elem in status:
-                    if hasattr(rsp, elem.keyword):
+                    if elem.keyword != "MessageIDBeingRespondedTo" and hasattr(
+                        rsp, elem.keyword
+                    ):
                         setattr(rsp, elem.keyword, elem.value)
                     else:
                         LOGGER.warning(
